@@ -11,55 +11,58 @@ Close Scope string_scope.
 Open Scope list_scope.
 Open Scope N_scope.
 
-Notation hist := (run_hist kload ksupported).
+(** [supp] is ANY Supported() that satisfies its specification (C09 proves that the one of the current tree does):
+    the statements below are about LoadFilter, whatever probes are interleaved with the loads. *)
+Notation probe_ok supp := (supp_spec kstate do_seccomp supp).
+Notation hist supp := (run_hist kload supp).
 
 (** For EVERY scheduler oracle, pinned caller or not, after any history: when NoNewPrivs is requested there is
     one thread [t] (the one the goroutine is on when LoadFilter pins itself) such that the bit is set on [t]
     in the state in which seccomp(2) is entered, and seccomp(2) is entered on that same [t]. This rests on the
     LockOSThread / deferred UnlockOSThread statements found in the regenerated skeleton of LoadFilter. *)
-Theorem C11_nnp_before_install_same_thread : forall st0 pre tid pinned sched f p,
+Theorem C11_nnp_before_install_same_thread : forall supp st0 pre tid pinned sched f p,
   wf_filt f -> f_nnp f = true -> f_prog f = Ok p ->
-  let w := mk_world (hist st0 pre) tid pinned sched in
+  let w := mk_world (hist supp st0 pre) tid pinned sched in
   exists j, let t := thread_at kstate w j in
-  live (hist st0 pre) t ->
-  let st1 := prctl_set_nnp (hist st0 pre) t in
+  live (hist supp st0 pre) t ->
+  let st1 := prctl_set_nnp (hist supp st0 pre) t in
   (exists caller, find_thread st1 t = Some caller /\ t_nnp caller = true) /\
-  hist st0 (pre ++ [HLoad tid pinned sched f]) =
+  hist supp st0 (pre ++ [HLoad tid pinned sched f]) =
     fst (fst (do_seccomp st1 t SECCOMP_SET_MODE_FILTER (f_flag f) (fprog p))).
-Proof. exact (nnp_before_install_same_thread kload ksupported kload_spec). Qed.
+Proof. exact (fun supp => nnp_before_install_same_thread kload supp kload_spec). Qed.
 Print Assumptions C11_nnp_before_install_same_thread.
 
 (** ... so an unprivileged process can always load a valid filter: whatever the privileges of the thread, if
     the filter is one the kernel accepts ([attachable]: legal flags, 1..4096 verified instructions, room in
     the filter path, no thread-sync obstacle) the load returns nil - under every schedule. *)
-Theorem C11_unprivileged_can_load : forall st0 pre tid pinned sched f p,
+Theorem C11_unprivileged_can_load : forall supp st0 pre tid pinned sched f p,
   wf_filt f -> f_nnp f = true -> f_prog f = Ok p ->
-  let w := mk_world (hist st0 pre) tid pinned sched in
+  let w := mk_world (hist supp st0 pre) tid pinned sched in
   exists j, let t := thread_at kstate w j in
-  forall caller, find_thread (hist st0 pre) t = Some caller ->
-  attachable (prctl_set_nnp (hist st0 pre) t) (with_nnp caller true) (f_flag f) p ->
+  forall caller, find_thread (hist supp st0 pre) t = Some caller ->
+  attachable (prctl_set_nnp (hist supp st0 pre) t) (with_nnp caller true) (f_flag f) p ->
   snd (kload w f) = LNil.
-Proof. exact (unprivileged_can_load kload ksupported kload_spec). Qed.
+Proof. exact (fun supp => unprivileged_can_load kload supp kload_spec). Qed.
 Print Assumptions C11_unprivileged_can_load.
 
 (** Not requested: every thread's bit is left as it was. The only change possible is the kernel's own: a
     successful thread-sync copies a bit that some thread ALREADY had to the other threads. *)
-Theorem C11_nnp_untouched : forall st0 pre tid pinned sched f,
+Theorem C11_nnp_untouched : forall supp st0 pre tid pinned sched f,
   wf_filt f -> f_nnp f = false ->
-  forall th', In th' (ks_threads (hist st0 (pre ++ [HLoad tid pinned sched f]))) ->
-  exists th, In th (ks_threads (hist st0 pre)) /\ t_tid th = t_tid th' /\
+  forall th', In th' (ks_threads (hist supp st0 (pre ++ [HLoad tid pinned sched f]))) ->
+  exists th, In th (ks_threads (hist supp st0 pre)) /\ t_tid th = t_tid th' /\
     (t_nnp th' = t_nnp th \/
-     (has_flag (f_flag f) FLAG_TSYNC = true /\ exists c, In c (ks_threads (hist st0 pre)) /\ t_nnp c = true)).
-Proof. exact (nnp_untouched kload ksupported kload_spec). Qed.
+     (has_flag (f_flag f) FLAG_TSYNC = true /\ exists c, In c (ks_threads (hist supp st0 pre)) /\ t_nnp c = true)).
+Proof. exact (fun supp => nnp_untouched kload supp kload_spec). Qed.
 Print Assumptions C11_nnp_untouched.
 
 (** Not requested, and no thread has the bit or the capability: an error, and the kernel state is unchanged. *)
-Theorem C11_unprivileged_without_nnp_fails : forall st0 pre tid pinned sched f,
+Theorem C11_unprivileged_without_nnp_fails : forall supp, probe_ok supp -> forall st0 pre tid pinned sched f,
   wf st0 -> Forall op_ok pre -> wf_filt f -> f_nnp f = false ->
-  (forall th, In th (ks_threads (hist st0 pre)) -> t_nnp th = false /\ t_priv th = false) ->
-  snd (kload (mk_world (hist st0 pre) tid pinned sched) f) = LErr /\
-  hist st0 (pre ++ [HLoad tid pinned sched f]) = hist st0 pre.
-Proof. exact (unprivileged_without_nnp_fails kload ksupported kload_spec ksupported_spec). Qed.
+  (forall th, In th (ks_threads (hist supp st0 pre)) -> t_nnp th = false /\ t_priv th = false) ->
+  snd (kload (mk_world (hist supp st0 pre) tid pinned sched) f) = LErr /\
+  hist supp st0 (pre ++ [HLoad tid pinned sched f]) = hist supp st0 pre.
+Proof. exact (fun supp Hs => unprivileged_without_nnp_fails kload supp kload_spec Hs). Qed.
 Print Assumptions C11_unprivileged_without_nnp_fails.
 
 (** Defect D8 (repaired in /repo by ad0fa2b), kept as a refutation: remove the LockOSThread / UnlockOSThread
@@ -94,7 +97,7 @@ Proof. vm_compute. reflexivity. Qed.
 Example C11_ex_unprivileged :
   let f0 := {| f_nnp := false; f_flag := 0; f_prog := f_prog d8_filt |} in
   snd (kload (d8_world 0) f0) = LErr /\
-  stacks (hist d8_state [HLoad 100 false (d8_sched 0) f0]) = [(100, []); (101, [])] /\
-  nnp_bits (hist d8_state [HLoad 100 false (d8_sched 0) f0]) = [(100, false); (101, false)] /\
+  stacks (hist ref_supported d8_state [HLoad 100 false (d8_sched 0) f0]) = [(100, []); (101, [])] /\
+  nnp_bits (hist ref_supported d8_state [HLoad 100 false (d8_sched 0) f0]) = [(100, false); (101, false)] /\
   snd (kload (d8_world 0) d8_filt) = LNil.
 Proof. vm_compute. repeat split. Qed.
